@@ -15,6 +15,7 @@ EXPLANATION = (
     "becomes None, after Interrupted nothing is removed; Ok(0) and every non-Interrupted error clear "
     "queue and buffer and return ConnectionClosed; the response queue is mutated only by push_back / "
     "pop_front / clear (FIFO); pending_write consults both queue and buffer. "
+    "the queue is emptied only by clear_write_buffer, reached only from try_write and from the hang-up branch of requests(). "
     "Decides these clauses; the prefix invariant over all short-write patterns is not decided."
 )
 TRUSTED = ["Write::write returns n <= buf.len() bytes accepted", "Vec::drain(..n) removes exactly the first n elements", "VecDeque FIFO semantics"]
